@@ -191,12 +191,21 @@ func vAddRelatedEntries(t *rapid.T, s *vScenario) {
 	default:
 		addRecipe("nc~pos", [2]string{e, "1"})
 		addRecipe("nc~neg", [2]string{e, "-1"})
-		big := []string{"5000000", "123456789", "1234567890", "99999999999"}[rapid.IntRange(0, 3).Draw(t, "related.big")]
+		big := []string{"5000000", "123456789", "1234567890", "99999999999", "25000000000000", "999999999999999"}[rapid.IntRange(0, 5).Draw(t, "related.big")]
 		cents := []string{".75", ".5", ".25", ".01", ".99"}[rapid.IntRange(0, 4).Draw(t, "related.cents")]
+		if len(big) >= 14 {
+			cents = []string{".75", ".5", ".25"}[rapid.IntRange(0, 2).Draw(t, "related.cents2")] // what a float64 of that size can still hold
+		}
 		di := rapid.IntRange(0, len(s.Log.Recs)-1).Draw(t, "related.d")
 		for _, en := range [][2]string{{"nc~pos", big + cents}, {"nc~neg", big}} {
 			s.Log.Recs[di].Lines = append(s.Log.Recs[di].Lines, vLine{Kind: vkEntry, Name: en[0], Num: en[1], L: plain})
 		}
+		// the same on the level of foods: a food taken back almost completely on another day, and two foods of one
+		// category that nearly cancel (the category keeps the few cents)
+		logIt("ncf~/a", big+cents, "related.f1")
+		logIt("ncf~/a", "-"+big, "related.f2")
+		logIt("ncf~/b/x", big+cents, "related.f3")
+		logIt("ncf~/b/y", "-"+big, "related.f4")
 		s.Log.NoFinalNL = false
 	}
 }
@@ -531,7 +540,7 @@ func checkC02(c c02Case, ctx *vCtx) *vFailure {
 		}
 		for i, w := range wantRows {
 			g := got[i]
-			negShown := vVal{V: new(big.Rat).Neg(w.neg.V), Mag: w.neg.Mag}
+			negShown := vVal{V: new(big.Rat).Neg(w.neg.V), Mag: w.neg.Mag, N: w.neg.N}
 			if g.Date != w.date || !vValClose(g.Pos, w.pos, 2) || !vValClose(g.Neg, negShown, 2) || !vValClose(g.Sum, w.pos.Add(w.neg), 2) {
 				return vFailf("reg -s %q row %d: got %v, expected (%s, %s, %s, =%s)", x, i, g, w.date, w.pos, negShown, w.pos.Add(w.neg))
 			}
